@@ -395,6 +395,20 @@ func runC16(c *Ctx, r *Report, tier string) {
 			c.mptRule(r, "ATTR", mc, ret, "man page: a command's subcommands are written", c.isCallTo("writeManPageSubcommands"), "call writeManPageSubcommands", nil)
 		}
 	}
+	// the choice list is shown for every option that has choices, with or without a value name
+	for _, in := range c.instrs(who, c.isCallTo("(*bytes.Buffer).WriteString", "(*bufio.Writer).WriteString")) {
+		call := in.(*ssa.Call)
+		if !strings.Contains(c.term(call.Call.Args[1]), "Option.Choices(P2)") {
+			continue
+		}
+		var extra []string
+		for _, d := range c.controlDeps(who, in.Block()) {
+			if l, ok := c.edgeLit(d.B, d.Succ); ok && strings.Contains(l.Term, "Option.ValueName(") {
+				extra = append(extra, l.String())
+			}
+		}
+		r.Check(len(extra) == 0, "ATTR", wn, "choices do not depend on a value name", c.ipos(in), "the `[a|b]` part is written under its own test only", "the choice list is written only under "+strings.Join(extra, "; "))
+	}
 	// ---- MASK
 	maskEmpty := func(t string) LitMatch {
 		return func(l Lit) bool { return !l.Pos && strings.HasPrefix(l.Term, "nonempty(Option.DefaultMask("+t) }
